@@ -48,6 +48,10 @@ def check(run, prog, tier):
     from ..report import RuleProxy
     c05.rule_U15(RuleProxy(run, "C03-J", keep=lambda construct, key: construct.split(".")[0] in (
         "Molecule", "AggregateBase", "Aggregate", "Mode", "SubMode", "OpenSystem")), prog)
+    run.rule("C03-L", "the resonance coupling of two states is that of the two molecules whose levels differ: the positions in the "
+                      "coupling matrix are positions in the electronic signatures, not the running numbers of the states (which "
+                      "count only the states that exist: a molecule with a single level has none in the one-exciton band)", minimum=2)
+    rule_L(run, prog)
     run.rule("C03-K", "a molecule handed over as an object is found in the aggregate by identity, not through its name: names are "
                       "labels (the default name is the same for every molecule) and couplings belong to positions", minimum=2)
     rule_K(run, prog)
@@ -267,6 +271,43 @@ def rule_K(run, prog):
                        loc=f.loc(bad) if bad else f.loc(f.node))
     if n < 2:
         raise AnalysisError("C03-K: only %d methods edit the aggregate for a molecule object (add_Molecule, remove_Molecule confirmed)" % n)
+
+
+def rule_L(run, prog):
+    """'every aggregate Hamiltonian coupling ... equals the corresponding resonance coupling': self.resonance_coupling is
+    indexed by molecules.  In AggregateBase.coupling every index of a read of that matrix is defined from a position in
+    the signatures (a loop variable over their length, possibly through a small list) - a definition from `state.index`
+    takes the number of the state for the number of the molecule."""
+    rid = "C03-L"
+    f = prog.func(AB + "coupling")
+    prog.consulted.add(f.relpath)
+    n = 0
+    defs = {}
+    for a_ in walk_no_nested(f.node):
+        if isinstance(a_, ast.Assign) and len(a_.targets) == 1 and isinstance(a_.targets[0], ast.Name):
+            defs.setdefault(a_.targets[0].id, []).append(a_)
+    for x in walk_no_nested(f.node):
+        if not (isinstance(x, ast.Subscript) and norm(x.value) == "self.resonance_coupling" and isinstance(x.ctx, ast.Load)
+                and isinstance(x.slice, ast.Tuple)):
+            continue
+        n += 1
+        names = [e.id for e in x.slice.elts if isinstance(e, ast.Name)]
+        # the definitions that reach the read: those in the same statement list or an enclosing one, before it
+        bad = []
+        for nm in names:
+            reaching = [d_ for d_ in defs.get(nm, []) if d_.lineno < x.lineno]
+            if reaching:
+                last = max(reaching, key=lambda d_: d_.lineno)
+                called = {id(c_.func) for c_ in ast.walk(last.value) if isinstance(c_, ast.Call)}
+                if any(isinstance(y, ast.Attribute) and y.attr == "index" and id(y) not in called for y in ast.walk(last.value)):
+                    bad.append((nm, last))
+        run.obligation(rid, f.short, not bad, key="molecule-index:%d" % n,
+                       message="coupling() reads `%s` with `%s`: the running number of an electronic state, not the position of a "
+                               "molecule - with a molecule that has no excited level the states of the one-exciton band are fewer "
+                               "than the molecules and the coupling of another pair (or none) is taken"
+                               % (norm(x)[:50], norm(bad[0][1])[:40] if bad else ""), loc=f.loc(bad[0][1] if bad else x))
+    if n < 2:
+        raise AnalysisError("C03-L: only %d reads of the coupling matrix found in coupling()" % n)
 
 
 def rule_G(run, prog):
